@@ -50,6 +50,9 @@ _PURE_EXTERNALS = {'os.path.join': _pp.join, 'os.path.normpath': _pp.normpath, '
 
 
 def _chain(*its):
+    if any(type(it).__name__ in ('generator', 'count') for it in its):
+        import itertools
+        return (x for x in itertools.chain(*its))      # lazy over lazy inputs
     out = []
     for it in its:
         out.extend(it)
@@ -1562,6 +1565,8 @@ class FDE:
                     raise       # raised by the evaluated code itself while the builtin consumed a lazy generator
                 except Exception as ex:  # noqa
                     raise Raised(type(ex).__name__)
+                if n in ('enumerate', 'zip', 'map', 'filter') and any(type(a_).__name__ in ('generator', 'count') for a_ in args):
+                    return (x_ for x_ in _guarded_iter(r))      # lazy over a lazy input: how far the input is consumed stays observable
                 return list(r) if n in ('range', 'enumerate', 'zip', 'reversed', 'map', 'filter') else r
             if n in env and callable(env[n]) and getattr(env[n], '_fde_ok', False):
                 return self._standin(env[n], args, kwargs)
